@@ -49,7 +49,7 @@ def seeded():
             t[1] += 1 if c.get("caught") else 0
             t[2] += 1 if str(m.get("blind_check_exit", "")) == "1" else 0
     per_wave = "; ".join(f"wave {w}: {t[1]}/{t[0]}" + (f" (blind: {t[2]})" if t[2] else "") for w, t in sorted(waves.items(), key=lambda kv: (len(kv[0]), kv[0])))
-    head = (f"{total} changes are kept (two per property and wave, every property by a different agent in every wave; the breaking waves are 1, 3, 4, 5, 8, 9, 10, 12, 14 and 15); "
+    head = (f"{total} changes are kept (two per property and wave, every property by a different agent in every wave; the breaking waves are 1, 3, 4, 5, 8, 9, 10, 12, 14, 15 and 17); "
             f"**{caught} are reported as VIOLATION** by the check of their property, "
             f"{total - caught} are not reported (no verdict: the change is noticed as a shape the rule cannot judge; or missed). Reported / kept per wave on the current checks"
             f" (in brackets: reported at first sight, before any rule was built from the wave): {per_wave}.\n\n"
